@@ -15,6 +15,9 @@ NO_THROW_IN_PRACTICE = [
     r"std::(abs|pow|sqrt|cbrt|exp|log|log2|log10|acos|clamp|min|max|fixed|scientific|setprecision|replace|transform|move|forward)$",
     r"std::(unordered_)?map<.*>::(find|end|cend|begin|cbegin)$",   # comparing / hashing enum and string_view keys does not throw
     r"(acos|sqrt|pow|cbrt|exp|log|log2|log10|tolower|toupper|abs|fabs)$",
+    # <cmath>: report errors through errno / floating-point exceptions, never by throwing
+    r"(std::)?(a?sin|a?cos|a?tan|atan2|sinh|cosh|tanh|asinh|acosh|atanh|hypot|fabs|fmin|fmax|fdim|fma|floor|ceil|round|trunc|fmod|remainder|exp2|expm1|log1p|"
+    r"isnan|isinf|isfinite|isnormal|copysign|signbit|nextafter|ldexp|frexp|modf|erf|erfc|tgamma|lgamma)[fl]?$",
 ]
 MAY_THROW = {
     r"std::(unordered_)?map<.*>::at$": "std::out_of_range when the key is absent",
@@ -94,12 +97,13 @@ def run(chk):
     chk.rule("R4", "no local declared without initialiser reaches a result unassigned; every constructor with arguments leaves every stored slot assigned")
     chk.rule("R5", "no cast to an enumeration type; no non-constant signed integer arithmetic")
     chk.rule("R6", "no element access (operator[], front, back) on a std::vector of unknown size; every std::array index is a constant inside the array")
+    chk.rule("R7", "no reference variable or returned reference is bound to the result of a call that returns a reference when an argument of that call is a temporary (std::clamp/min/max idiom)")
     chk.rule("R0", "positive controls: the scanners fire on a control TU fragment containing each forbidden construct")
     chk.assumptions += ["static analysis decides the clauses the statement names (lookups hit, exception escape, parser totality, definite initialisation inside "
                         "the library, integer/enum discipline); general memory safety beyond these clauses is NOT decided",
                         "std::tolower/toupper on negative char values (non-ASCII input to Lowercase/Uppercase/SnakeCase) is formally UB and is recorded as an observation, not armed; these helpers are not on the parsing paths",
                         "default constructors leave values uninitialised by documented design"]
-    controls = {"cast": 0, "signed": 0, "unchecked": 0, "uninit": 0, "throw": 0, "vector_element": 0, "array_element": 0}
+    controls = {"cast": 0, "signed": 0, "unchecked": 0, "uninit": 0, "throw": 0, "vector_element": 0, "array_element": 0, "dangling": 0}
     n_calls = 0
     n_array_idx = [0]
     for T in NUMERIC:
@@ -231,6 +235,45 @@ def run(chk):
                         else:
                             chk.violated("R5", "%s: signed %s" % (f["name"], n.get("op")), "non-constant signed integer arithmetic of type %s can overflow" % t, loc)
             cg.walk(f.get("body"), visit)
+            # R7: a reference that outlives the temporary it (may) refer to
+            def unwrap(n):
+                while isinstance(n, dict) and n.get("k") == "ilist" and len(n.get("e", [])) == 1:
+                    n = n["e"][0]
+                return n
+
+            def returns_ref(n):
+                n = unwrap(n)
+                if not isinstance(n, dict) or n.get("k") != "call" or "f" not in n:
+                    return False
+                g = F.fns.get(n["f"])
+                return g is not None and (F.T(g["ret"]) or "").rstrip().endswith("&")
+
+            def temp_args(n):
+                n = unwrap(n)
+                out = [a for a in n.get("a", []) if isinstance(a, dict) and a.get("mat") == "tmp"]
+                o = n.get("obj")
+                if isinstance(o, dict) and o.get("mat") == "tmp":
+                    out.append(o)
+                return out
+
+            def visit_ref(n, f=f, is_control=is_control, loc=loc):
+                k = n.get("k")
+                cands = []
+                if k == "decl":
+                    for d in n.get("d", []):
+                        if (F.T(d["t"]) or "").rstrip().endswith("&") and returns_ref(d.get("init")) and temp_args(d["init"]):
+                            cands.append(("local reference `%s`" % d["n"], unwrap(d["init"])))
+                if k == "ret" and (F.T(f["ret"]) or "").rstrip().endswith("&") and returns_ref(n.get("e")) and temp_args(n["e"]):
+                    cands.append(("returned reference", unwrap(n["e"])))
+                for what, call in cands:
+                    g = F.fns.get(call["f"])
+                    if is_control:
+                        controls["dangling"] += 1
+                    else:
+                        chk.violated("R7", "%s: %s" % (f["name"], what),
+                                     "%s is bound to the reference returned by %s, one of whose reference arguments is a temporary destroyed at the end of the "
+                                     "declaration: reading it afterwards is undefined behaviour (stack-use-after-scope)" % (what, g["name"]), loc)
+            cg.walk(f.get("body"), visit_ref)
             # R4 uninitialised locals
             uninit = []
             cg.walk(f.get("body"), lambda n: uninit.extend(d for d in n.get("d", []) if "init" not in d and not (F.T(d["t"]) or "").startswith("std::")) if n.get("k") == "decl" else None)
@@ -305,6 +348,8 @@ def run(chk):
                 chk.violated("R3", inst, "a strto* call is not enclosed by a try with a non-rethrowing catch(...): arbitrary byte strings make it throw", short(f["loc"]))
     if not any(o["rule"] == "R5" for o in chk.obs):
         chk.holds("R5", "all library bodies", "no cast to an enumeration type and no non-constant signed integer arithmetic in any instantiated body (controls matched: see R0)", "")
+    if not any(o["rule"] == "R7" for o in chk.obs):
+        chk.holds("R7", "all library bodies", "no reference outlives a temporary it may refer to", "")
     for k, v in controls.items():
         (chk.holds if v > 0 else chk.inconclusive)("R0", "control:" + k, "scanner matched the control construct %d time(s)" % v, "driver")
     chk.floor("external call sites examined", n_calls, 9000)
